@@ -66,6 +66,7 @@ class Rec:
         self.last_heq = None
         self.static_key = "?"
         self.refused: list = []
+        self.drb = None   # GHE-level runs: the model's fixed (D, rb) literals
 
     def fid(self, coords):
         key = tuple((float(p[0]), float(p[1])) for p in coords)
@@ -139,6 +140,7 @@ def instrument(rec: Rec):
             "hEq": float(rec.last_heq) if rec.last_heq is not None else None, "h": core.rs(h),
             "method": "hybrid" if method == TimestepType.HYBRID else "hourly", "nSteps": 0 if method == TimestepType.HYBRID else len(self.times),
             "temps": (float(r[0]), float(r[1])), "static": rec.static_key, "id": id(self), "gtok": getattr(self.gFunction, "_verif_tok", "calc"),
+            "D": rec.drb[0] if rec.drb else core.rs(self.bhe.b.D), "rb": rec.drb[1] if rec.drb else core.rs(self.bhe.b.r_b),
             "hp_eft_sha": hashlib.sha1(repr([float(x) for x in self.hp_eft]).encode()).hexdigest(),
         })
         return r
@@ -246,7 +248,8 @@ def sims_table(trace):
     """simKey -> temps; second component: keys seen with two different temperature pairs."""
     table, conflicts = {}, []
     for t in trace:
-        key = f"{t['static']}#{t['field']}#{t.get('gtok', 'calc')}#{t['heights']}#{t['h']}#{t['method']}"
+        # every input of the simulation: configuration tokens, field, table, burial depth, radius, hybrid-load height, stored heights, height, method
+        key = f"{t['static']}#{t['field']}#{t.get('gtok', 'calc')}#{t['D']}#{t['rb']}#{t['hLoad']}#{t['heights']}#{t['h']}#{t['method']}"
         val = (core.rs(t["temps"][0]), core.rs(t["temps"][1]))
         if key in table and table[key] != val:
             conflicts.append((key, table[key], val))
@@ -494,6 +497,7 @@ def ghe_worker(spec):
     warnings.filterwarnings("ignore")
     rec = Rec()
     rec.static_key = static_key_ghe(spec)
+    rec.drb = ("2/1", "7/100")   # the literals of `apighe` (the real objects hold 2.0 and 0.14/2)
     out = {"spec": spec, "steps": [], "fresh": []}
     with instrument(rec), ghelib.quiet():
         ghe = build_real_ghe(spec)
@@ -731,10 +735,17 @@ PIPE_ARGS = {"SINGLEUTUBE": (0.03404, 0.04216, 0.01856, 1.0e-6), "DOUBLEUTUBEPAR
              "DOUBLEUTUBESERIES": (0.03404, 0.04216, 0.01856, 1.0e-6)}
 
 
+def pipe_pay(cfg):
+    """Arguments of the pipe setter.  Only the coaxial geometry of ghelib.set_pipe depends on the borehole diameter; for
+    the U-tubes the diameter is NOT an input of the pipe (so that re-setting only the borehole ends in the same configuration)."""
+    p = cfg["phys"]
+    return (cfg["pipe"], p["pipe_k"], p["pipe_rho_cp"], p["borehole"][2] if cfg["pipe"] == "COAXIAL" else None)
+
+
 def setters_of(cfg):
     """The eight component setter calls of a configuration, as (name, payload)."""
     p = cfg["phys"]
-    return [("fluid", p["fluid"]), ("grout", p["grout"]), ("soil", p["soil"]), ("pipe", (cfg["pipe"], p["pipe_k"], p["pipe_rho_cp"], p["borehole"][2])),
+    return [("fluid", p["fluid"]), ("grout", p["grout"]), ("soil", p["soil"]), ("pipe", pipe_pay(cfg)),
             ("bh", (cfg.get("nominal_height", p["borehole"][0]), p["borehole"][1], p["borehole"][2])),
             ("sim", (cfg["months"], cfg["max_eft"], cfg["min_eft"], cfg["max_h"], cfg["min_h"], cfg.get("max_boreholes"), cfg.get("cont", False))),
             ("loads", (cfg["load_kind"], cfg["load_scale"])), ("geom", cfg["geom"])]
@@ -828,6 +839,7 @@ def do_step(managers, step, rec):
             return f"soil:{m}:{tok('S', pay)}", "ok"
         if name == "pipe":
             kind, k, rcp, dia = pay
+            dia = 0.14 if dia is None else dia
             ghelib.set_pipe(mg, kind, {"pipe_k": k, "pipe_rho_cp": rcp}, dia)
             return f"pipe:{m}:{kind}:{tok('P', pay)}", "ok"
         if name == "bh":
@@ -870,7 +882,7 @@ def do_step(managers, step, rec):
 def static_key_mgr(cfg, flow, ft):
     p = cfg["phys"]
     mo, a, b, c, d, mb, ct = (cfg["months"], cfg["max_eft"], cfg["min_eft"], cfg["max_h"], cfg["min_h"], cfg.get("max_boreholes"), cfg.get("cont", False))
-    return "|".join([tok("F", p["fluid"]), tok("P", (cfg["pipe"], p["pipe_k"], p["pipe_rho_cp"], p["borehole"][2])), tok("G", p["grout"]), tok("S", p["soil"]), cfg["pipe"],
+    return "|".join([tok("F", p["fluid"]), tok("P", pipe_pay(cfg)), tok("G", p["grout"]), tok("S", p["soil"]), cfg["pipe"],
                      tok("L", (cfg["load_kind"], cfg["load_scale"])), "8760", str(mo), core.rs(a), core.rs(b), core.rs(c), core.rs(d), "-" if mb is None else str(mb),
                      "1" if ct else "0", core.rs(flow), "B" if ft == "BOREHOLE" else "S"])
 
